@@ -4,6 +4,7 @@ import (
 	"bytes"
 	"context"
 	"crypto/sha256"
+	"encoding/base64"
 	"encoding/hex"
 	"encoding/json"
 	"fmt"
@@ -15,7 +16,9 @@ import (
 	"testing"
 	"time"
 
+	"github.com/lestrrat-go/jwx/v2/jwk"
 	"github.com/nuts-foundation/go-did/did"
+	"github.com/nuts-foundation/nuts-node/audit"
 	"github.com/nuts-foundation/nuts-node/crypto/hash"
 	"github.com/nuts-foundation/nuts-node/network"
 	"github.com/nuts-foundation/nuts-node/network/dag"
@@ -284,6 +287,13 @@ func c19Peer(s *simkit.Sim, rc *simkit.RunCtx, sample *c19Sample) {
 			// type-confused protected header under a valid signature
 			payload := []byte("c19-" + fmt.Sprint(s.D.Decide("p", 1000)))
 			hdr := world.TxHeaderJSON(prevs, head.LC+1, "foo/bar", key, time.Now())
+			if s.D.Decide("hdr-with-pal", 3) == 0 {
+				// a private transaction: participant list header (opaque encrypted entries)
+				var hm map[string]interface{}
+				_ = json.Unmarshal(hdr, &hm)
+				hm["pal"] = []string{"QUJDREVGR0hJSktMTU5PUFFSU1RVVldYWVo=", "MDEyMzQ1Njc4OTAxMjM0NTY3ODkwMTIzNDU2Nzg5"}
+				hdr, _ = json.Marshal(hm)
+			}
 			m, desc := world.MutateJSON(hdr, func(l string, n int) int { return s.D.Decide("hdr "+l, n) })
 			raw := world.RawJWS(m, []byte(hash.SHA256Sum(payload).String()), key)
 			return raw, payload, "transaction header (signed): " + desc
@@ -563,7 +573,7 @@ func c19HTTP(s *simkit.Sim, rc *simkit.RunCtx, sample *c19Sample) {
 		return
 	}
 	// ---- the corrupting link: which exchange, which direction, which mutation ----
-	classes := []string{"metadata", "presentation_definition", "token", "did.json", "statuslist", "discovery"}
+	classes := []string{"metadata", "presentation_definition", "token", "did.json", "statuslist", "discovery", "dpop-proof", "dpop-validate"}
 	class := classes[s.D.Decide("exchange", len(classes))]
 	direction := []string{"request", "response"}[s.D.Decide("direction", 2)]
 	if class != "token" && class != "discovery" {
@@ -610,7 +620,42 @@ func c19HTTP(s *simkit.Sim, rc *simkit.RunCtx, sample *c19Sample) {
 		tampered++
 		return true
 	}
-	if direction == "request" {
+	if class == "dpop-proof" {
+		// the DPoP proof in the header of the token request is self-signed (embedded key): whoever sends the request can
+		// sign any claims. The workload replaces the key by its own, mutates header or claims, and signs again.
+		direction = "request"
+		attacker := world.NewKey()
+		attackerJWK, _ := jwk.FromRaw(attacker.Public())
+		w.HTTP.TamperRequest = func(req *http.Request, body []byte) []byte {
+			proof := req.Header.Get("DPoP")
+			if classOf(req) != "token" || proof == "" || !take() {
+				return body
+			}
+			parts := strings.Split(proof, ".")
+			if len(parts) != 3 {
+				return body
+			}
+			hb, _ := base64.RawURLEncoding.DecodeString(parts[0])
+			var hm map[string]interface{}
+			if json.Unmarshal(hb, &hm) != nil {
+				return body
+			}
+			jb, _ := json.Marshal(attackerJWK)
+			hm["jwk"] = json.RawMessage(jb)
+			hb, _ = json.Marshal(hm)
+			parts[0] = base64.RawURLEncoding.EncodeToString(hb)
+			forged, d := world.MutateJWT(strings.Join(parts, "."), chooser, func(in string) string { return world.SignES256(in, attacker) })
+			if forged == "" {
+				return body
+			}
+			req.Header.Set("DPoP", forged)
+			tmu.Lock()
+			sample.Hostile = append(sample.Hostile, "DPoP proof (re-signed): "+d)
+			tmu.Unlock()
+			fmt.Printf("HOSTILE-INPUT run=%d http: DPoP proof (re-signed): %s\n", rc.Run, d)
+			return body
+		}
+	} else if direction == "request" {
 		w.HTTP.TamperRequest = func(req *http.Request, body []byte) []byte {
 			if classOf(req) != class || len(body) == 0 || !take() {
 				return body
@@ -666,7 +711,11 @@ func c19HTTP(s *simkit.Sim, rc *simkit.RunCtx, sample *c19Sample) {
 	beforeAS, beforeCL := sqlDigest(as), sqlDigest(cl)
 	var tr world.TokenResult
 	if !op("token", func() {
-		tr = cl.RequestServiceToken("vendorB", "https://nodea.sim/oauth2/vendorA", scope, []string{"Bearer", ""}[s.D.Decide("tt", 2)], true)
+		tt := []string{"Bearer", ""}[s.D.Decide("tt", 2)]
+		if class == "dpop-proof" || class == "dpop-validate" {
+			tt = "" // DPoP is the default token type
+		}
+		tr = cl.RequestServiceToken("vendorB", "https://nodea.sim/oauth2/vendorA", scope, tt, true)
 	}) {
 		return
 	}
@@ -697,6 +746,62 @@ func c19HTTP(s *simkit.Sim, rc *simkit.RunCtx, sample *c19Sample) {
 	if tr.Code == 200 && tr.AccessToken != "" {
 		if !op("introspect", func() { as.Introspect(tr.AccessToken) }) {
 			return
+		}
+	}
+	if class == "dpop-validate" && tr.Code == 200 && tr.DPoPKid != "" {
+		// The holder of a DPoP-bound token signs the proofs it sends to a resource server with its own key: it can put
+		// anything into them. The resource server hands proof, method and URL to its node for validation.
+		_, intro := as.Introspect(tr.AccessToken)
+		jkt := ""
+		if cnf, ok := intro["cnf"].(map[string]interface{}); ok {
+			jkt, _ = cnf["jkt"].(string)
+		}
+		var proof string
+		if !op("dpop-proof", func() {
+			_, body := cl.Call("POST", "/internal/auth/v2/dpop/"+strings.ReplaceAll(tr.DPoPKid, "#", "%23"), map[string]string{"htm": "GET", "htu": "https://nodea.sim/resource", "token": tr.AccessToken})
+			var dp struct {
+				Dpop string `json:"dpop"`
+			}
+			_ = json.Unmarshal(body, &dp)
+			proof = dp.Dpop
+		}) {
+			return
+		}
+		parts := strings.Split(proof, ".")
+		if len(parts) == 3 && jkt != "" {
+			hb, _ := base64.RawURLEncoding.DecodeString(parts[0])
+			cb, _ := base64.RawURLEncoding.DecodeString(parts[1])
+			var hm map[string]json.RawMessage
+			_ = json.Unmarshal(hb, &hm)
+			key, kerr := jwk.ParseKey(hm["jwk"])
+			for i := 0; i < 3 && kerr == nil; i++ {
+				mut, d := world.MutateJSON(cb, func(l string, n int) int { return s.D.Decide("dpopv "+l, n) })
+				if mut == nil {
+					continue
+				}
+				var forged string
+				var serr error
+				if !op("sign-proof", func() {
+					forged, serr = cl.Crypto.SignJWS(audit.Context(context.Background(), "sim", "Sim", "op"), mut, map[string]interface{}{"typ": "dpop+jwt", "jwk": key}, tr.DPoPKid, false)
+				}) {
+					return
+				}
+				if serr != nil {
+					continue
+				}
+				sample.Hostile = append(sample.Hostile, "DPoP proof for the resource server (signed by the token holder): "+d)
+				fmt.Printf("HOSTILE-INPUT run=%d http: DPoP proof for validation (signed by the token holder): %s\n", rc.Run, d)
+				tmu.Lock()
+				tampered++
+				tmu.Unlock()
+				method := []string{"GET", "", "POST", "\x00"}[s.D.Decide("validate-method", 4)]
+				u := []string{"https://nodea.sim/resource", "", "://", "https://nodea.sim:99999/resource", "%zz", "http://[::1"}[s.D.Decide("validate-url", 6)]
+				if !op("dpop-validate", func() {
+					as.Call("POST", "/internal/auth/v2/dpop/validate", map[string]string{"dpop_proof": forged, "method": method, "thumbprint": jkt, "token": tr.AccessToken, "url": u})
+				}) {
+					return
+				}
+			}
 		}
 	}
 	// discovery: activation registers a presentation on the server, the client refreshes its copy
